@@ -21,6 +21,7 @@ func c12(c *Ctx) {
 	c.noNegativeIndex("R12.8")
 	c.headerOffsetsInRange("R12.9")
 	c.emptyBodyHasNoLines("R12.10")
+	c.mimeTypesAreNormalised("R12.11")
 	c.boundedRecursion("R12.1", []string{"rfc5322", "rfc822", "imap", "rfcparser"}, []string{"rfc5322", "rfc822", "imap"}, 5)
 }
 
@@ -225,4 +226,129 @@ func (c *Ctx) emptyBodyHasNoLines(rule string) {
 		}
 	}
 	R.Min(rule, "increments of the line count", n, 1)
+}
+
+// mimeTypesAreNormalised (R12.11): every media type gluon compares was lower-cased by the media type parser.
+func (c *Ctx) mimeTypesAreNormalised(rule string) {
+	P, R := c.P, c.R
+	R.Explain(rule, "types of the MIME tree: the structure code compares media types with lower-case constants (`text`, `message/rfc822`, the `multipart/` prefix), so every string that becomes an rfc822.MIMEType must be in that normal form: a constant, the first result of mime.ParseMediaType (reached directly or through the package variable ParseMediaType, which is assigned nothing else), a strings.ToLower result, or a value that already has the type.  A media type taken over as written (`TEXT/PLAIN`, `Message/RFC822`) is reported without its line count, without the embedded envelope and body, and its parts cannot be addressed.")
+	// the package variable ParseMediaType must only ever hold mime.ParseMediaType
+	var pmt *ssa.Global
+	if pkg := P.SSAPkg("rfc822"); pkg != nil {
+		if g, ok := pkg.Members["ParseMediaType"].(*ssa.Global); ok {
+			pmt = g
+		}
+	}
+	isStdParse := func(v ssa.Value) bool {
+		fn, ok := v.(*ssa.Function)
+		return ok && fn.String() == "mime.ParseMediaType"
+	}
+	if pmt != nil {
+		n := 0
+		fns := append([]*ssa.Function{}, c.reprFuncs()...)
+		if ini := P.SSAPkg("rfc822").Func("init"); ini != nil {
+			fns = append(fns, ini) // the initialiser of the variable lives in the package's init
+		}
+		for _, f := range fns {
+			for _, b := range f.Blocks {
+				for _, in := range b.Instrs {
+					if st, ok := in.(*ssa.Store); ok && st.Addr == ssa.Value(pmt) {
+						n++
+						R.Check(isStdParse(st.Val), rule, c.name(f)+"|ParseMediaType assigned", P.Pos(st.Pos()), "the variable holds mime.ParseMediaType", "rfc822.ParseMediaType is assigned something other than mime.ParseMediaType: the media types it yields are no longer known to be lower-cased")
+					}
+				}
+			}
+		}
+		R.Min(rule, "assignments of the variable ParseMediaType", n, 1)
+	}
+	isMIME := func(t types.Type) bool { return engine.IsNamed(t, "rfc822", "MIMEType") }
+	parseResult := func(v ssa.Value) bool {
+		ex, ok := v.(*ssa.Extract)
+		if !ok || ex.Index != 0 {
+			return false
+		}
+		call, ok := ex.Tuple.(*ssa.Call)
+		if !ok {
+			return false
+		}
+		if isStdParse(call.Call.Value) {
+			return true
+		}
+		if ld, ok := call.Call.Value.(*ssa.UnOp); ok && pmt != nil && ld.X == ssa.Value(pmt) {
+			return true
+		}
+		return false
+	}
+	n := 0
+	for _, f := range c.productFuncs() {
+		for _, b := range f.Blocks {
+			for _, in := range b.Instrs {
+				var x ssa.Value
+				var res ssa.Value
+				switch t := in.(type) {
+				case *ssa.ChangeType:
+					x, res = t.X, t
+				case *ssa.Convert:
+					x, res = t.X, t
+				default:
+					continue
+				}
+				if !isMIME(res.Type()) || isMIME(x.Type()) {
+					continue
+				}
+				n++
+				bad := ""
+				engine.Backward(x, engine.FlowOpts{Loads: true}, func(v ssa.Value) bool {
+					if bad != "" {
+						return false
+					}
+					switch t := v.(type) {
+					case *ssa.Const:
+						return false
+					case *ssa.Phi:
+						return true
+					case *ssa.ChangeType:
+						if isMIME(t.X.Type()) {
+							return false
+						}
+						return true
+					case *ssa.Convert:
+						if isMIME(t.X.Type()) {
+							return false
+						}
+						return true
+					case *ssa.UnOp:
+						if _, isAlloc := t.X.(*ssa.Alloc); isAlloc && t.Op == token.MUL {
+							return true
+						}
+					case *ssa.Extract:
+						if parseResult(t) {
+							return false
+						}
+						if call, ok := t.Tuple.(*ssa.Call); ok {
+							if sc := call.Call.StaticCallee(); sc != nil && P.IsOwn(sc) && isMIME(sc.Signature.Results().At(t.Index).Type()) {
+								return false
+							}
+						}
+					case *ssa.Call:
+						if sc := t.Call.StaticCallee(); sc != nil {
+							if sc.String() == "strings.ToLower" {
+								return false
+							}
+							if P.IsOwn(sc) && sc.Signature.Results().Len() == 1 && isMIME(sc.Signature.Results().At(0).Type()) {
+								return false
+							}
+						}
+					}
+					bad = v.String()
+					if pos := P.Pos(v.Pos()); pos != "" && pos != "-" {
+						bad += " at " + pos
+					}
+					return false
+				})
+				R.Check(bad == "", rule, c.name(f)+"|to MIMEType", P.Pos(in.Pos()), "the string is a lower-cased media type", "a string that was not lower-cased by mime.ParseMediaType / strings.ToLower ("+bad+") becomes an rfc822.MIMEType: a part whose Content-Type is written in upper or mixed case is not recognised as text, message/rfc822 or multipart")
+			}
+		}
+	}
+	R.Min(rule, "conversions to rfc822.MIMEType", n, 1)
 }
